@@ -57,8 +57,9 @@ def task_point_source(prop):
     I1 = [env['ix1'], env['iy1'], env['iz1']]
     facts = point_source_facts(X, n, V, coo)
     pc = list(X.pc) + facts
-    # the position is strictly inside the second .. second-last node of every vector (receiver domain of C09)
-    inside = [z3.And(V[k](1) <= coo[k], coo[k] < V[k](n[k] - 2 + 0)) for k in range(3)]
+    # the position lies within the range of every vector, below its last entry (for the component's own direction the vector holds
+    # the cell centres, and a receiver position nodes[1] <= c lies in their FIRST interval: the first interval must not be excluded)
+    inside = [z3.And(V[k](0) <= coo[k], coo[k] < V[k](n[k] - 1)) for k in range(3)]
     mono = []
     for k in range(3):
         j = z3.Int(f'mj{k}')
